@@ -900,6 +900,8 @@ func execC08(line string, oracle bool) string {
 		return execPre(line, oracle)
 	case "vb":
 		return execVb(line, oracle)
+	case "conc":
+		return execConc(w, line, "C08")
 	}
 	return "bad-op"
 }
@@ -1036,6 +1038,10 @@ func mutationsFor(p base, r *xvlib.Rng, all bool) []string {
 
 func genC08(tier string, rng *xvlib.Rng, run func(string, bool)) {
 	thorough := tier == "thorough"
+	// 0. ids computed by several goroutines at once
+	for i := 0; i < 3; i++ {
+		run(fmt.Sprintf("conc %d %d %d", rng.Intn(1<<30), 12, map[bool]int{false: 150, true: 2000}[thorough]), true)
+	}
 	// 1. leaf padding: every n up to 1024 (4096 thorough) and the neighbourhood of every power of two up to 2^12
 	maxLeaf := 1024
 	if thorough {
